@@ -136,7 +136,10 @@ _conv_requires = ["0 <= ti", "ti < len(par.vals)", "self.dt > 0", "par.timescale
                   "all(implies(isinstance(l.source, SourceCompartment), ti < len(l.source.vals) and l.source.vals[ti] == 0) for l in par.links)",   # SourceCompartment.preallocate fills 0
                   "all(implies(isinstance(l.source, TimedCompartment), ti < l.source._vals.shape[1] and l.source._vals.shape[0] >= 1) for l in par.links)",
                   "all(l.source._vals[i, ti] >= 0 for l in par.links if isinstance(l.source, TimedCompartment) for i in range(l.source._vals.shape[0]))",
-                  "par._source_popsize_cache_time is None or par._source_popsize_cache_time != ti"]   # the cache is keyed by ti and each parameter is visited once per step
+                  # representation invariant of the source-size cache: an entry for this time index holds the current total of the
+                  # parameter's source compartments (its establishment is an obligation of whoever changes compartment sizes at ti:
+                  # see Model.flush_junctions below)
+                  "implies(par._source_popsize_cache_time is not None and par._source_popsize_cache_time == ti, par._source_popsize_cache_val == sum(l.source[ti] for l in par.links))"]
 _popsize = "sum(l.source[ti] for l in par.links)"
 CONTRACTS["model:Model.update_links#conversion"] = dict(
     schema=schema,
@@ -443,6 +446,114 @@ for _n in (1, 2):
              "all(l.dest[0] == old(l.dest[0]) + old(self.vals[0]) * sum((m.parameter.vals[0] / max(1, %s) if m.parameter is not None else max(0, 1 - %s)) for m in self.outlinks if m.dest is l.dest) for l in self.outlinks)" % (_T, _T)),
         ],
         frame_props=["C04", "C10"], defined_props=["C04"])
+
+
+
+# ---- Model.flush_junctions must leave the source-size cache of every parameter valid (the precondition of the conversion contract
+# above): the flush changes compartment sizes at time index 0 AFTER Model.process has already run update_pars() once, which fills
+# the cache of a program-targeted number parameter for index 0.  One junction with one outgoing link, one population with one
+# parameter with one link (lists of fixed length, unrolled); everything else symbolic, the parameter's source may be the flush target.
+def _env_flushj(it):
+    self = it.new_obj("self", ["Model"])
+    J = it.new_obj("J", ["JunctionCompartment"])
+    it.facts.append(core_typeof_exact(J, "JunctionCompartment"))
+    return {"self": self, "J": J, "JUNCS": [J]}
+
+
+def core_typeof_exact(o, cls):
+    from pyvc.core import CLASSES
+
+    return CLASSES.classset_term(o.ref, [cls])
+
+
+_q = "self.pops[0].pars[0]"
+_cache_ok = ("implies(%s._source_popsize_cache_time is not None and %s._source_popsize_cache_time == 0, "
+             "%s._source_popsize_cache_val == %s.links[0].source.vals[0])" % (_q, _q, _q, _q))
+CONTRACTS["model:Model.flush_junctions#cache_invariant"] = dict(
+    schema=schema, make_env=_env_flushj, unroll_max=3, stubs={"self._exec_order['junctions']": "JUNCS"},
+    requires=["len(self.pops) == 1", "len(self.pops[0].pars) == 1", "len(%s.links) == 1" % _q,
+              "not isinstance(%s.links[0].source, TimedCompartment)" % _q, "len(%s.links[0].source.vals) >= 1" % _q,
+              "len(J.outlinks) == 1", "len(J.vals) >= 1", "J.vals[0] >= 0", "J.outlinks[0].dest is not J",
+              "J.outlinks[0].parameter is not None and len(J.outlinks[0].parameter.vals) >= 1 and J.outlinks[0].parameter.vals[0] > 0",
+              "not isinstance(J.outlinks[0].dest, TimedCompartment)", "len(J.outlinks[0].dest.vals) >= 1",
+              _cache_ok],
+    ensures=[("C03+C13.source_size_cache_is_valid_after_the_flush", _cache_ok)],
+    defined_props=["C03"])
+
+
+
+def _replay_flush_cache(model, contract):
+    """replay of the history that Model.process runs at the first time index, on REAL objects: a junction J (holding people) flushes
+    into compartment A; a number parameter q has its only link out of A.  update_pars() asks q.source_popsize(0) for a
+    program-targeted number parameter BEFORE the flush; update_links() asks again AFTER it and divides the requested number by it."""
+    import numpy as np
+    import z3
+    import atomica.model as am
+    from pyvc import core
+
+    def num(t, default):
+        try:
+            v = model.eval(t, model_completion=True)
+            return float(v.numerator_as_long()) / float(v.denominator_as_long())
+        except Exception:
+            return default
+
+    vals = z3.Function("h.Compartment.vals[]", core.Ref, z3.IntSort(), z3.RealSort())
+    dest = z3.Function("h.Link.dest:ref", core.Ref, core.Ref)
+    elem = z3.Function("outlinks[]", core.Ref, z3.IntSort(), core.Ref)
+    J_ = z3.Const("J", core.Ref)
+    j0 = num(vals(J_, z3.IntVal(0)), 50.0)
+    a0 = num(vals(dest(elem(J_, z3.IntVal(0))), z3.IntVal(0)), 100.0)
+    if j0 <= 0:
+        j0 = 50.0
+    pop = type("Pop", (), {"name": "pop"})()
+
+    def comp(cls, name, v):
+        c = object.__new__(cls)
+        c.id, c.pop, c.vals, c.outlinks, c.inlinks, c.units = ("pop", name), pop, np.array([v, 0.0]), [], [], "Number of people"
+        return c
+
+    def par(name, v):
+        p = object.__new__(am.Parameter)
+        p.id, p.pop, p.vals, p.links, p.units, p.timescale = ("pop", name), pop, np.array([v, v]), [], "number", 1.0
+        p._source_popsize_cache_time, p._source_popsize_cache_val = None, None
+        return p
+
+    def link(name, src, dst, p):
+        l = object.__new__(am.Link)
+        l.id, l.pop, l.vals, l.source, l.dest, l.parameter = ("pop", name), pop, np.zeros(2), src, dst, p
+        src.outlinks.append(l)
+        dst.inlinks.append(l)
+        if p is not None:
+            p.links.append(l)
+        return l
+
+    A, B = comp(am.Compartment, "A", a0), comp(am.Compartment, "B", 0.0)
+    J = comp(am.JunctionCompartment, "J", j0)
+    J.duration_group = None
+    pj, q = par("pj", 1.0), par("q", 10.0)
+    link("J_A", J, A, pj)
+    link("A_B", A, B, q)
+    m = object.__new__(am.Model)
+    m._exec_order = {"junctions": [J]}
+    pop.pars = [pj, q]
+    m.pops = [pop]
+    pre = dict(junction=j0, source_compartment_before_flush=a0, parameter="number of people per year out of A")
+    before = float(q.source_popsize(0))          # update_pars(), program overwrite of a number parameter
+    try:
+        m.flush_junctions()                       # Model.process, first time index
+    except Exception as e:
+        return dict(verdict="error", detail="flush_junctions raised %s: %s" % (type(e).__name__, e), prestate=pre)
+    after = float(q.source_popsize(0))           # update_links(), conversion of the number parameter
+    actual = float(A.vals[0])
+    pre.update(source_size_seen_by_update_pars=before, source_size_seen_by_update_links=after, source_compartment_after_flush=actual)
+    ok = abs(after - actual) <= 1e-9 * max(1.0, abs(actual))
+    return dict(verdict="holds" if ok else "violates",
+                detail="after the flush A holds %r people but update_links is told %r (the size cached before the flush): a number parameter of N people/yr then moves N*dt*%r/%r instead of N*dt" % (actual, after, actual, after)
+                if not ok else "update_links sees the current source size %r" % after, prestate=pre)
+
+
+CONTRACTS["model:Model.flush_junctions#cache_invariant"]["replay_hook"] = _replay_flush_cache
 
 
 # ------------------------------------------------------------------------------------------------ limits (C06)
